@@ -7,7 +7,8 @@ use std::{collections::BTreeSet, sync::OnceLock};
 pub fn graph() -> &'static PackageGraph {
     static G: OnceLock<PackageGraph> = OnceLock::new();
     G.get_or_init(|| {
-        let json = std::fs::read_to_string("/repo/fixtures/tests-workspace-metadata.json")
+        let repo = std::env::var("VERIF_REPO").unwrap_or_else(|_| "/repo".to_owned());
+        let json = std::fs::read_to_string(format!("{repo}/fixtures/tests-workspace-metadata.json"))
             .expect("fixture metadata");
         PackageGraph::from_json(json).expect("package graph")
     })
